@@ -163,9 +163,7 @@ func c10JudgeObjs(sp c10Spec, beforeTexts []string, cls string, afterTexts []str
 		}
 		return c10Verdict{true, "C10/" + what + "-panics", "terminates_without_panic", what + " panicked"}
 	case ClsDiverge:
-		if hangShape {
-			return c10Verdict{true, "C10/replacement-create-nonselfmatching-selector-hangs", "terminates_without_panic", what + " did not return"}
-		}
+		_ = hangShape
 		return c10Verdict{true, "C10/" + what + "-does-not-return", "terminates_without_panic", what + " did not return"}
 	}
 	p, ok := predict(c10Mode{})
@@ -197,7 +195,7 @@ func c10JudgeObjs(sp c10Spec, beforeTexts []string, cls string, afterTexts []str
 		detail = c10DiffText(c10CompareObjs(p.objs, after))
 	}
 	undecided := false
-	for _, m := range []c10Mode{{ImgTwice: true}, {ListKeyRegex: true}, {SourceAlias: true}, {ListKeyRegex: true, SourceAlias: true}} {
+	for _, m := range []c10Mode{{ImgTwice: true}, {ListKeyRegex: true}} {
 		if m.ImgTwice && len(sp.Images) == 0 {
 			continue
 		}
